@@ -26,7 +26,8 @@ def isNSB : FieldDecl → Bool
   | .number _ | .integer _ | .float _ | .string _ _ _ | .boolean => true
   | _ => false
 
-/-- Array.serialize returns the value itself for `Number` items and for items of class `String` -/
+/-- Array.serialize copies the list without converting the elements for `Number` items and for
+    items of class `String` -/
 def isNumOrStr : FieldDecl → Bool
   | .number _ | .integer _ | .float _ | .string _ _ _ => true
   | _ => false
@@ -110,12 +111,12 @@ def fser (Mp : MapEnv) (NF : List String) : FieldDecl → PyVal → R PyVal
   | .enumLit _, v => .ok v
   | .enumCls _ _, v => fEnumName v
   | .seqOf .list item _, v =>
-    if isNumOrStr item then .ok v
+    if isNumOrStr item then fList (fun xs => .ok xs) v       -- `list(value)`: a copy, same elements
     else if nonFastRef NF item then .error (.other "AttributeError")     -- `items._ty.serialize`
     else fList (mapE (fser Mp NF item)) v
   | .seqOf .deque item _, v => fList (mapE (fser Mp NF item)) v
   | .seqPos _ items _ _, v => fList (fserZip Mp NF items) v
-  | .seqAny _ _, v => .ok v
+  | .seqAny _ _, v => fList (fun xs => .ok xs) v              -- `deepcopy(list(value))`
   | .setOf _ item _, v =>
     if nonFastRef NF item then .error (.other "AttributeError")
     else fList (mapE (fser Mp NF item)) v
@@ -130,7 +131,7 @@ def fser (Mp : MapEnv) (NF : List String) : FieldDecl → PyVal → R PyVal
   | .mapOf kf vf _, v =>
     fMap (mapE (fun (kv : PyVal × PyVal) =>
       bindE (fser Mp NF kf kv.1) fun k' => bindE (fser Mp NF vf kv.2) fun v' => .ok (k', v'))) v
-  | .mapAny _, v => .ok v
+  | .mapAny _, v => (match v with | .dict kvs => .ok (.dict kvs) | _ => .error .typeErr)  -- `deepcopy(dict(value))`
   | .struct c fields defaults, v =>
     if c.inline then
       -- StructureReference.serialize: every field, unset ones included (None)
